@@ -140,15 +140,16 @@ def cases(draw):
     if draw(st.booleans()):
         wk = [k for k in kinds if k not in ("match", "try")]
         wrap = {"func": draw(st.integers(0, nfun - 1)), "kind": draw(st.sampled_from(wk))}
-    return {"kind": "skeleton", "funcs": funcs, "via": via, "wrap": wrap}
+    # the same skeleton written one construct per line, or each function squeezed onto one physical line (ts/js/rs)
+    return {"kind": "skeleton", "funcs": funcs, "via": via, "wrap": wrap, "layout": draw(st.sampled_from(["lines", "lines", "compact"]))}
 
 
 # ------------------------------------------------------------------------------------ running
 
 
-def observe(funcs, lang, limits, via):
+def observe(funcs, lang, limits, via, layout="lines"):
     """-> {limit: {fname: (depth, line)}}, headers, anomalies"""
-    text, headers = sk.render(funcs, lang)
+    text, headers = sk.render(funcs, lang, layout)
     fname = "mod" + sk.EXT[lang]
     out = {}
     anomalies = []
@@ -256,9 +257,9 @@ def check(case) -> Case:
     dmax = max(spec_depths.values())
     limits = list(range(1, dmax + 3))
     failures = []
-    labels = [f"langs={len(langs)}", f"dmax={min(dmax, 8)}", f"via={case['via']}", f"nfun={len(funcs)}"]
+    labels = [f"langs={len(langs)}", f"dmax={min(dmax, 8)}", f"via={case['via']}", f"nfun={len(funcs)}", f"layout={case.get('layout', 'lines')}"]
     for lang in langs:
-        obs, headers, text, anomalies = observe(funcs, lang, limits, case["via"])
+        obs, headers, text, anomalies = observe(funcs, lang, limits, case["via"], case.get("layout", "lines"))
         for a in anomalies:
             failures.append(Failure(f"{lang}|anomaly|{sorted(a)[0]}", {"lang": lang, **a, "source": text}))
         uniform = set()  # functions whose observed depth is the documented one up to the uniform python offset
@@ -293,7 +294,7 @@ def check(case) -> Case:
             wrapped = [dict(f) for f in funcs]
             wi = w["func"] % len(funcs)
             wrapped[wi] = {**tgt, "body": wrap_deepest(tgt["body"], w["kind"])}
-            obs2, headers2, text2, an2 = observe(wrapped, lang, limits + [dmax + 3], case["via"])
+            obs2, headers2, text2, an2 = observe(wrapped, lang, limits + [dmax + 3], case["via"], case.get("layout", "lines"))
             name = tgt["name"]
             d1 = obs.get(1, {}).get(name)
             d2 = obs2.get(1, {}).get(name)
